@@ -49,7 +49,7 @@ type edit struct {
 type census struct {
 	Lock, Unlock, RLock, RUnlock int
 	CondWait, CondSignal, CondBcast int
-	OnceDo, Close, Recv, Go, MapRange int
+	OnceDo, Close, Recv, Go, MapRange, Loops int
 	TimerCB, NbSendYield, Select      int
 }
 
@@ -349,9 +349,16 @@ func pass1(fset *token.FileSet, f *ast.File, info *types.Info, src []byte, fname
 				if keyName != "_" {
 					fmt.Fprintf(&body, " %s := vsimK%s; _ = %s;", keyName, id, keyName)
 				}
-				add(x.Pos(), x.Body.Lbrace+1, hdr+body.String())
+				add(x.Pos(), x.Body.Lbrace+1, hdr+body.String()+" vsimLoopTick();")
 				cen.MapRange++
+			default:
+				add(x.Body.Lbrace+1, x.Body.Lbrace+1, " vsimLoopTick();")
 			}
+			cen.Loops++
+		case *ast.ForStmt:
+			// bounded work per scheduling step (C03): every loop iteration is counted
+			add(x.Body.Lbrace+1, x.Body.Lbrace+1, " vsimLoopTick();")
+			cen.Loops++
 		case *ast.UnaryExpr:
 			if x.Op == token.ARROW && !inSelectComm[x] {
 				// blocking receive outside select
